@@ -38,6 +38,8 @@ package mode
 //@   loop 0 invariant forall j int :: {actionSet[j]} 0 <= j && j < len(actionSet) ==> !isnil(actionSet[j])
 //@   loop 0 invariant forall j int :: {actionSet[j]} 0 <= j && j < len(actionSet) ==> exists k int :: 0 <= k && k <= rangeindex && cand(state, k) && actionSet[j] == act(state, k)
 //@   loop 0 invariant forall k int :: {state.NFAStates[k]} 0 <= k && k <= rangeindex && cand(state, k) ==> exists j int :: 0 <= j && j < len(actionSet) && actionSet[j] == act(state, k)
+//   the element just appended is its own witness
+//@   loop 0 hint cand(state, rangeindex) ==> len(actionSet) >= 1 && actionSet[len(actionSet) - 1] == act(state, rangeindex)
 //@   loop 0 decreases n - rangeindex
 //@   loop 1 invariant 1 <= i && i <= len(actionSet) && state == old(state) && errs == old(errs) && fset == old(fset)
 //@   loop 1 invariant errs.hasErrors == old(errs.hasErrors) && unchangedOld(fields(dfa.State)) && unchangedOld(fields(nfa.State)) && unchangedOld(fields(Actions)) && unchangedOld(elems(*nfa.State)) && unchangedOld(elems(Action))
